@@ -104,6 +104,48 @@ func CheckWrapperGetters(spec *common.Spec, typeName string, v view.View, sh *Va
 			notes = append(notes, fmt.Sprintf("%sView.%s returned %x, stored %x", typeName, name, b, sh.Elems[j].Bytes()))
 		}
 	}
+	// bulk readers: Raw() returns the whole struct form, Flatten(dst) fills a flat copy whose fields are named after
+	// the fields of the struct form
+	if m := wv.MethodByName("Raw"); m.IsValid() && m.Type().NumIn() == 0 && m.Type().NumOut() == 2 {
+		var out []reflect.Value
+		pan, pv := hx.Catch(func() { out = m.Call(nil) })
+		compared++
+		if pan {
+			notes = append(notes, fmt.Sprintf("%sView.Raw panicked: %v", typeName, pv))
+		} else if !out[1].IsNil() {
+			notes = append(notes, fmt.Sprintf("%sView.Raw returned an error: %v", typeName, out[1].Interface()))
+		} else if b, err := helper.bytesOf(out[0]); err != nil {
+			notes = append(notes, fmt.Sprintf("%sView.Raw: result not serializable: %v", typeName, err))
+		} else if !bytes.Equal(b, sh.Bytes()) {
+			notes = append(notes, fmt.Sprintf("%sView.Raw returned %x, stored %x", typeName, b, sh.Bytes()))
+		}
+	}
+	if m := wv.MethodByName("Flatten"); m.IsValid() && m.Type().NumIn() == 1 && m.Type().NumOut() == 1 &&
+		m.Type().In(0).Kind() == reflect.Ptr && m.Type().In(0).Elem().Kind() == reflect.Struct {
+		dst := reflect.New(m.Type().In(0).Elem())
+		var out []reflect.Value
+		pan, pv := hx.Catch(func() { out = m.Call([]reflect.Value{dst}) })
+		if pan {
+			notes = append(notes, fmt.Sprintf("%sView.Flatten panicked: %v", typeName, pv))
+		} else if !out[0].IsNil() {
+			notes = append(notes, fmt.Sprintf("%sView.Flatten returned an error: %v", typeName, out[0].Interface()))
+		} else {
+			ft := dst.Elem().Type()
+			for j := 0; j < ft.NumField(); j++ {
+				sf, ok := st.FieldByName(ft.Field(j).Name)
+				if !ok || len(sf.Index) != 1 {
+					continue
+				}
+				compared++
+				b, err := helper.bytesOf(dst.Elem().Field(j))
+				if err != nil {
+					notes = append(notes, fmt.Sprintf("%sView.Flatten: field %s not serializable: %v", typeName, ft.Field(j).Name, err))
+				} else if !bytes.Equal(b, sh.Elems[sf.Index[0]].Bytes()) {
+					notes = append(notes, fmt.Sprintf("%sView.Flatten: field %s is %x, stored %x", typeName, ft.Field(j).Name, b, sh.Elems[sf.Index[0]].Bytes()))
+				}
+			}
+		}
+	}
 	return
 }
 
